@@ -14,6 +14,12 @@ save_object, restore_object (C entry points and efuns), with the interposed libc
           restore_object, restore_object(,1)}; 3 save files likewise with 19 symbols x {clear, noclear}
   strings every string of length <= 5 (quick) / 6 (thorough) over ( { [ / " , : } ) ] \\ - . e + 1 through restore_svalue and
           safe_restore_svalue
+  shapes  all 356 inheritance shapes {chain of 1, 2, 3 links, two parents, diamond} x every inherit statement declared
+          {plain, static, private, static private}, every program with plain / static / private / private static
+          variables: the save file names exactly the persistent variables; statics keep their value across restore
+  mapkeys 335 989 integer-keyed mappings that fill and outgrow the hash table they are restored into (every subset of 16
+          hash values alone / in an array / as a mapping value; 12..15 of 16 and 25..31 of 32 buckets x which keys carry the
+          next hash bit) and 1..40 string keys; equality includes a lookup of every key in the restored mapping
   history driver booted with MaxArraySize 8 / MaxMappingSize 8: all histories of length 2..3 over 28 operations
           {9 texts (valid scalar / flat / nested / class, nested array and nested mapping of limit+1, top-level array of
           limit+1, damaged mid-container) x {restore_variable, restore_object, restore_object(,1)}, save_variable}; every
@@ -38,7 +44,8 @@ RULE = ("values: grammar {int, float, string, array(0..2), mapping(0..2 pairs, i
         "operation; damaged text: every prefix / single substitution (16 symbols) / single deletion of 58 saved texts and of 3 save "
         "files, every string of length <= 5/6 over 16 structural symbols: value or LPC error, sanitizer clean, noclear keeps the "
         "old value on error; fault points: crash before/after and failure (EIO, ENOSPC) of every libc call of save_object over "
-        "an existing file, left-over temporary of every length; all 22 736 histories of length 2..3 over 28 restore/save operations "
+        "an existing file, left-over temporary of every length; 356 inheritance shapes x inherit modifiers: save file content "
+        "== persistent variables; 335 989 table-filling mappings with every key looked up after restore; all 22 736 histories of length 2..3 over 28 restore/save operations "
         "with MaxArraySize/MaxMappingSize 8 (a restore refused by error() inside a nested container): each step's outcome equals "
         "that of the same step in a fresh process: save file byte-identical to the old or the complete new one, "
         "return value agrees")
@@ -65,6 +72,8 @@ def _parts(ck, exe, quick, deadline):
     ck.enum(exe, ["--part=leaves"], "leaves", batch=60, deadline_s=deadline)
     ck.enum(exe, ["--part=crash"], "crash", batch=8, deadline_s=deadline, timeout_ms=30000)
     ck.enum(exe, ["--part=history"], "history", batch=100, deadline_s=deadline, timeout_ms=30000)
+    ck.enum(exe, ["--part=shapes"], "shapes", batch=10, deadline_s=deadline, timeout_ms=30000)
+    ck.enum(exe, ["--part=mapkeys"], "mapkeys", batch=20, deadline_s=deadline, timeout_ms=60000)
     if quick:
         ck.enum(exe, ["--part=damage", "--ntexts=29"], "damage", batch=200, deadline_s=deadline)
         ck.enum(exe, ["--part=strings", "--slen=5"], "strings", batch=16, deadline_s=deadline, timeout_ms=60000)
@@ -105,6 +114,8 @@ def mut_run(ck, exes):
     ck.enum(exe, ["--part=leaves"], "m-leaves", batch=60)
     ck.enum(exe, ["--part=crash"], "m-crash", batch=8)
     ck.enum(exe, ["--part=history"], "m-history", batch=100)
+    ck.enum(exe, ["--part=shapes"], "m-shapes", batch=10)
+    ck.enum(exe, ["--part=mapkeys"], "m-mapkeys", batch=20)
     ck.enum(exe, ["--part=damage"], "m-damage", batch=200)
     ck.enum(exe, ["--part=strings", "--slen=4"], "m-strings", batch=16)
     ck.enum(exe, ["--part=struct", "--nl=1", "--depth=2"], "m-struct", batch=4)
